@@ -8,6 +8,7 @@ compares with 0, and presence/absence of optional object arguments.  Under a cas
 guard conditions evaluate to constants; what is left of a rejecting condition is negated
 and its comparison atoms become polynomial facts  D >= 0 / D > 0."""
 import itertools
+import re
 
 from . import cexpr as cx
 from . import cfront as cf
@@ -358,6 +359,24 @@ class CallSite:
         self.path = path
 
 
+def is_type_id_expr(c, fnode, ce):
+    """`MAT_ID(x)` / `X_ID(x)` / `SP_ID(x)`, or a local that is only ever assigned such a value (`int id = MAT_ID(dl)`)"""
+    ce = cx.strip_casts(ce)
+    if ce[0] == "call" and ce[1] in ("MAT_ID", "X_ID", "SP_ID"):
+        return True
+    if ce[0] != "id":
+        return False
+    key = (id(fnode), ce[1])
+    if key not in _ID_LOCALS:
+        txt = cx.strip_pp(c.text(fnode["b"], fnode["e"]))
+        rhss = re.findall(r"\b%s\s*=(?!=)\s*([^;,]+)" % re.escape(ce[1]), txt)
+        _ID_LOCALS[key] = bool(rhss) and all(re.match(r"\s*(MAT_ID|X_ID|SP_ID)\s*\(", r_) for r_ in rhss)
+    return _ID_LOCALS[key]
+
+
+_ID_LOCALS = {}
+
+
 def _disjuncts(e):
     e = cx.strip_casts(e)
     if e[0] == "bin" and e[1] == "||":
@@ -605,7 +624,7 @@ class Simulator:
             kids = st.get("c", [])
             ce = self.cond_of(st)
             body = kids[-1] if kids else None
-            on_id = ce is not None and ce[0] == "call" and ce[1] in ("MAT_ID", "X_ID", "SP_ID")
+            on_id = ce is not None and is_type_id_expr(self.c, self.fn, ce)
             if body is None:
                 return None
             arms = self._switch_arms(body)
